@@ -2,7 +2,7 @@
 # wave 12: own-property check (plus the history check for two changes that need a call sequence)
 export VERIF_REPLAY_DIR=/tmp/run_seed.replays VERIF_EVIDENCE_DIR=/tmp/run_seed.evidence
 cd /verif
-declare -A EXTRA=([C03-w12m2]="C11" [C03-w12m3]="C06" [C12-w12m2]="C11" [C12-w12m3]="C13" [C13-w12m2]="C11")
+declare -A EXTRA=([C03-w12m2]="C11" [C03-w12m3]="C06" [C12-w12m3]="C13")
 for d in ${DIRS:-seeded/*-w12m*/}; do
   id=$(basename $d); prop=${id%%-*}
   echo "{" > $d/result.tmp; first=1
